@@ -593,15 +593,6 @@ theorem finish_ok (p : ProxyS) (m : MuxL) (e : ESock) (se : Bool) :
     split <;> exact ⟨hall, rfl⟩
   · exact POk.refl ..
 
-theorem cleanup_ok (p : ProxyS) (m : MuxL) (e : ESock) (se : Bool) :
-    POk p m e (p.cleanup m e se).1 (p.cleanup m e se).2.1 (p.cleanup m e se).2.2 := by
-  unfold ProxyS.cleanup
-  by_cases hf : p.sockFirst = true
-  · simp only [hf, ↓reduceIte]
-    exact ((dropSock_ok p m e).trans (dropMux_ok p.dropSock m e)).trans (finish_ok _ _ e se)
-  · simp only [hf, Bool.false_eq_true, ↓reduceIte]
-    exact ((dropMux_ok p m e).trans (dropSock_ok (p.dropMux m).1 (p.dropMux m).2 e)).trans (finish_ok _ _ e se)
-
 theorem preSelect_ok (p : ProxyS) (m : MuxL) (e : ESock) :
     POk p m e (p.preSelectFlags m).1 (p.preSelectFlags m).2 e := by
   unfold ProxyS.preSelectFlags
@@ -641,6 +632,15 @@ theorem preSelect_ok (p : ProxyS) (m : MuxL) (e : ESock) :
 
 /-- **One whole `Proxy.callback`** is a sequence of abstract source transitions on the proxy's
 source view and of abstract sink transitions on its sink view. -/
+theorem cleanup_ok (p : ProxyS) (m : MuxL) (e : ESock) (se : Bool) :
+    POk p m e (p.cleanup m e se).1 (p.cleanup m e se).2.1 (p.cleanup m e se).2.2 := by
+  unfold ProxyS.cleanup
+  by_cases hf : p.sockFirst = true
+  · simp only [hf, ↓reduceIte]
+    exact (((dropSock_ok p m e).trans (dropMux_ok p.dropSock m e)).trans (preSelect_ok _ _ e)).trans (finish_ok _ _ e se)
+  · simp only [hf, Bool.false_eq_true, ↓reduceIte]
+    exact (((dropMux_ok p m e).trans (dropSock_ok (p.dropMux m).1 (p.dropMux m).2 e)).trans (preSelect_ok _ _ e)).trans (finish_ok _ _ e se)
+
 theorem callback_ok (p : ProxyS) (m : MuxL) (e : ESock) (io : CbIo) (p' : ProxyS) (m' : MuxL) (e' : ESock)
     (h : p.callback m e io = .ok p' m' e') : POk p m e p' m' e' := by
   obtain ⟨psw, pmw, pok, sf⟩ := p
